@@ -100,6 +100,10 @@ C11_AnswersPreserved(o) ==
   (o.has_pre /\ o.err = "nil" /\ o.pre_err = "nil") =>
       IF HasPrefilter(Q(o)) THEN SubBag(o.pre, o.res) ELSE SameBag(o.pre, o.res)
 C11_MergeSucceeds(o) == o.case.merges > 0 => o.merge_err = "nil"
+\* entry probes (cmd/search): where a filter over a stored row denies an entry that row carries, the one-leaf query asking
+\* for exactly that entry was run on the real engine; it must return every intact stored row carrying the entry
+C01_EntryProbesComplete(o) == o.probe_lost = 0
+C11_EntryProbesAfterMerge(o) == o.case.merges > 0 => o.probe_lost = 0
 
 (***************************************************************************)
 (* C18 (and the structural half of C11): indexes cover their data          *)
@@ -228,6 +232,7 @@ Props(o) ==
   [ C01_NoFalseNegative |-> C01_NoFalseNegative(o), C01_QuerySucceeds |-> C01_QuerySucceeds(o),
     C02_OnlyMatching |-> C02_OnlyMatching(o), C02_AtMostStored |-> C02_AtMostStored(o),
     C02_ExactWithoutPrefilter |-> C02_ExactWithoutPrefilter(o), C02_BlockGranular |-> C02_BlockGranular(o),
+    C01_EntryProbesComplete |-> C01_EntryProbesComplete(o), C11_EntryProbesAfterMerge |-> C11_EntryProbesAfterMerge(o),
     C03_Faithful |-> C03_Faithful(o), C03_IndependentOfMutation |-> C03_IndependentOfMutation(o), C03_RowsShareNothing |-> C03_RowsShareNothing(o),
     C03_ConcurrentAgree |-> C03_ConcurrentAgree(o),
     C11_BagUnchanged |-> C11_BagUnchanged(o), C11_AnswersPreserved |-> C11_AnswersPreserved(o),
